@@ -229,8 +229,10 @@ void ActionDiagnostic::clear()
 void ActionDiagnostic::begin_run_impl(CoreParams const& params)
 {
     CELER_VERIF_YIELD("ActionDiagnostic::begin_run_impl:enter");
-    if (!store_)
     {
+        // Called once per stream, possibly concurrently: always take the lock
+        // before looking at the store (an unlocked "is it built yet?" test
+        // races with the stream that is building it)
         CELER_VERIF_YIELD("ActionDiagnostic::begin_run_impl:before-lock");
         static std::mutex initialize_mutex;
         std::lock_guard<std::mutex> scoped_lock{initialize_mutex};
